@@ -408,8 +408,11 @@ def run(ctx):
         length = rng.choice([8, 9, 12, 16])
         circ = rng.random() < 0.75
         areas = []
+        long_ones = rng.random() < 0.3     # areas longer than half the record among short ones
         for _ in range(rng.randrange(3, 7)):
             size = rng.randrange(1, max(2, length // 2))
+            if long_ones and rng.random() < 0.4:
+                size = rng.randrange(length // 2, length - 1)
             start = rng.randrange(0, length)
             if start + size <= length:
                 ext = {"parts": [[start, start + size]], "strand": 1}
@@ -425,6 +428,24 @@ def run(ctx):
         if any(a["kind"] == "proto" for a in areas):
             hist.append({"op": "CreateCandidates", "arg": 0})
         hist.append({"op": "CreateRegions", "arg": 0})
+        cases.append({"id": next_id, "uni": uni, "hist": hist, "log_from": len(hist) - 1, "sampled": True})
+        next_id += 1
+        layouts += 1
+    # an origin-spanning area, a long one that overlaps it in front of the origin and starts nearer the record start than it
+    # ends from the record end, and a small one in the stretch between them that neither covers
+    for _ in range(300 if ctx.quick else 6000):
+        length = rng.choice([16, 20, 30])
+        post_end = rng.randrange(1, 3)
+        start = rng.randrange(post_end + 2, length // 3)
+        end = length - start - rng.randrange(1, 3)
+        pre_start = rng.randrange(end - 3, end)
+        small = rng.randrange(post_end + 1, start)
+        areas = [{"parts": [[pre_start, length], [0, post_end]], "strand": 1}, {"parts": [[start, end]], "strand": 1},
+                 {"parts": [[small, min(start, small + rng.randrange(1, 3))]], "strand": 1}]
+        areas = [{"kind": "sub", "core": ext, "extent": ext, "product": "sub"} for ext in areas]
+        rng.shuffle(areas)
+        uni = {"L": length, "circ": True, "genes": [], "areas": areas}
+        hist = [{"op": "AddSub", "arg": i + 1} for i in range(len(areas))] + [{"op": "CreateRegions", "arg": 0}]
         cases.append({"id": next_id, "uni": uni, "hist": hist, "log_from": len(hist) - 1, "sampled": True})
         next_id += 1
         layouts += 1
